@@ -1,4 +1,4 @@
-import CopVerif.Lemmas.VineWhole
+import CopVerif.Lemmas.VineTotal
 import CopVerif.Real.Inst
 import CopVerif.Gen.Bivariate
 /-!
@@ -332,6 +332,16 @@ theorem regular_never_fails {d t : Nat} {cs : List (Choice α)} {e : Fail} (hd :
   have := trainVine_regular_no_failure hd h
   cases e <;> simp_all [Fail.isRefusal]
 
+/-- **no Python-level failure, all three types**: for `d ≥ 2` and tau data satisfying `ChoicesOK`
+    the construction never raises `ValueError` from `left, right = sorted(A ^ B)` (the parents
+    always differ in exactly two variables), never an `IndexError`, and never loops forever; the
+    model fails only by refusing a choice sequence the code could not have produced. -/
+theorem never_fails {vt : VType} {d t : Nat} {cs : List (Choice α)} {e : Fail} (hd : 2 ≤ d)
+    (hcs : ChoicesOK vt d 0 cs) (h : trainVine vt d t cs = .error e) :
+    e ≠ .diverges ∧ e ≠ .valueError ∧ e ≠ .indexError := by
+  have := trainVine_no_failure hd hcs h
+  cases e <;> simp_all [Fail.isRefusal]
+
 end
 
 /-! ## the checker -/
@@ -377,6 +387,12 @@ theorem choicesOK_center_real (d : Nat) (cs : List (Choice ℝ)) (k : Nat) :
   induction cs generalizing k with
   | nil => trivial
   | cons c cs ih => exact ⟨colOK_real _ _, ih _⟩
+
+/-- **C16, structural part, center vines over `ℝ`: no hypothesis on the tau matrices at all.** -/
+theorem center_vine_is_regular_vine_real {d t : Nat} {cs : List (Choice ℝ)}
+    {r : List (Tree × List ℝ)} (hd : 2 ≤ d) (h : trainVine .center d t cs = .ok r) :
+    IsRegularVine d t (treesOf r) ∧ TypeSpec .center (treesOf r) :=
+  center_vine_is_regular_vine hd (choicesOK_center_real d cs 0) h
 
 /-- over `ℝ`, the greedy-cut property reads: every pair across the cut has `|tau| ≤` the chosen
     pair's `|tau|`. -/
